@@ -414,7 +414,7 @@ class Program:
                 yield f
 
     def fn(self, path):
-        cn = path.split("::")[0]
+        cn = path.lstrip("<&").split("::")[0]
         c = self.crates.get(cn)
         if c is None:
             return None
